@@ -164,6 +164,8 @@ IDIOMS = [
     ('R2.match_some_ref_none', r'\(Some\(&(\w+)\), None\) => \{', r'(Some(\1__r), None) => { let \1 = *\1__r;'),
     ('R2.match_none_some_ref', r'\(None, Some\(&(\w+)\)\) => \{', r'(None, Some(\1__r)) => { let \1 = *\1__r;'),
     ('R2.closure_tuple_param', r'\|\((\w+), (\w+)\)\| (\w+\.checked_sub\(\w+\))', r'|p__| { let (\1, \2) = p__; \3 }'),
+    # R6: `x.clone_from(&y)` (an allocation-reusing spelling of `x = y.clone()`, which is its documented meaning) is not supported by Verus
+    ('R6.clone_from', r'\b([A-Za-z_][A-Za-z0-9_]*(?:\.[A-Za-z_][A-Za-z0-9_]*)*)\.clone_from\(&([A-Za-z_][A-Za-z0-9_]*(?:\.[A-Za-z_][A-Za-z0-9_]*)*)\);', r'\1 = \2.clone();'),
     # R3 debug_assert_eq / _ne  (message dropped)
     ('R3.debug_assert_eq_carry', r'debug_assert_eq!\(carry, &0\);', r'debug_assert!(*carry == 0);'),
     ('R3.debug_assert_eq', r'debug_assert_eq!\(([^,;]+), ([^,;]+)\);', r'debug_assert!(\1 == \2);'),
